@@ -15,6 +15,7 @@ cli  <argv0> <version> <tty:0|1> <fd> <argv> <files> <calls>
        calls  : - | <call>,<call>,…        the library's behaviour for the k-th translate call of the run
          call : <res>;<werr>;<ev>.<ev>.…   res: ok | x<hex of message>;  werr: - | x<hex> (message when a write fails)
          ev   : A<hex> write_all | W<hex> write | F<hex>/<hex>/… write_fmt | V<hex>/<hex>/… write_vectored | L flush
+                | R<count>:<ev>~<ev>~… a block of events repeated count times
      → exit:<n|sigpipe|panic> stdout:<digest> stderr:<hex>
 noflush …same fields…                      the variant of main without the per-input flush
 ext      x<hex of a path>                  → json|msgpack|toml|yaml|none      (InputPath::extension_format)
@@ -98,6 +99,19 @@ def parseEvent (s : String) : Option WEvent :=
   | ['L'] => some .flush
   | _ => none
 
+/-- One `.`-separated item of an event list: a single event, or a repeated
+block `R<count>:<ev>~<ev>~…` (the harness run-length-compresses periodic output). -/
+def parseEventItem (s : String) : Option (List WEvent) :=
+  match s.toList with
+  | 'R' :: rest =>
+    match (String.ofList rest).splitOn ":" with
+    | [n, body] => do
+      let n ← n.toNat?
+      let block ← (body.splitOn "~").mapM parseEvent
+      pure (List.replicate n block).flatten
+    | _ => none
+  | _ => (parseEvent s).map fun e => [e]
+
 structure CallSpec where
   out : LibOut
   werr : Str
@@ -107,7 +121,7 @@ def parseCall (s : String) : Option CallSpec :=
   | [res, werr, evs] => do
     let result ← if res = "ok" then some none else (xStr res).map some
     let werr ← if werr = "-" then some [] else xStr werr
-    let events ← if evs = "" then some [] else (evs.splitOn ".").mapM parseEvent
+    let events ← if evs = "" then some [] else ((evs.splitOn ".").mapM parseEventItem).map List.flatten
     pure { out := { events := events, result := result }, werr := werr }
   | _ => none
 
